@@ -50,6 +50,10 @@ CFG = {
             "sets through NewBVHTree on a sub-range [start,end) of a longer slice, lower bound 0 / positive / negative, rays "
             "aimed at triangle interiors, sphere centres / insides / silhouettes / just outside; BVHNode.Hit vs HitList.Hit vs "
             "exhaustive minimum vs rendering.Tree.Hit (octree over the boxes) vs rendering.Mesh.Hit (narrowing traversal); "
+            "a size ladder judged exactly in Go (2^10+-1, 2^11+-1, 2^12+1 .. 2^15+1 elements, thorough also 2^16+1 and NumCPU "
+            "multiples +-1): per rung two octree sets (kinds / depth / attribute rotate; Mesh.OctTree... and trees.NewOctree...) "
+            "and NewBVHTree over that many spheres - invariant on the dumped tree, queries at the last / first / middle "
+            "elements and the origin vs the exhaustive scan; "
             "distinct by input; non-trivial = at least two elements and at least one evaluated query",
     "trusted": ["the elements' own geometry (scopedLine/scopedTri.ClosestPoint, rayIntersectsTri, Sphere.Hit) is float arithmetic "
                 "executed by Go; its results enter the cases as exact dyadic numbers and the exhaustive scan is computed on the same "
